@@ -675,6 +675,18 @@ def createMesh(filename):
     # parse input file
     equilibOptions, meshOptions = parseInput(filename)
 
+    # Options that are not recognised would otherwise be silently ignored
+    possible_options = (
+        [opt for opt in TORPEXMagneticField.user_options_factory.defaults]
+        + [opt for opt in TORPEXMagneticField.nonorthogonal_options_factory.defaults]
+        + [opt for opt in BoutMesh.user_options_factory.defaults]
+    )
+    unused_options = [opt for opt in meshOptions if opt not in possible_options]
+    if unused_options != []:
+        raise ValueError(
+            f"There were options in the input file that are not used: {unused_options}"
+        )
+
     equilibrium = TORPEXMagneticField(equilibOptions, meshOptions)
 
     # Pick up any changes due to default options, etc.
